@@ -63,7 +63,9 @@ def handle (inp out : Sexp) : CaseResult :=
               (if b == Program.empty then "B-empty" else "B-nonempty"),
               (if overlap a.frames b.frames > 0 then "frame-overlap" else "no-frame-overlap"),
               (if overlap a.calibrations b.calibrations > 0 then "cal-overlap" else "no-cal-overlap"),
-              (if overlap a.externs b.externs > 0 then "extern-overlap" else "no-extern-overlap")]
+              (if overlap a.externs b.externs > 0 then "extern-overlap" else "no-extern-overlap"),
+              (if (keys b.externs).contains "none" then "B-nameless-extern" else "B-no-nameless-extern"),
+              (if a == Program.empty && (keys b.externs).contains "none" then "empty+nameless-extern" else "-")]
             ++ (if !wf then ["INPUT-NOT-WF"] else [])
             ++ (if eq != "true" then ["ADD-NE-ADDASSIGN"] else [])
             ++ (if gt != "true" then ["GETTERS-DISAGREE"] else [])
